@@ -77,4 +77,30 @@ theorem rhf_energy_is_mixed_estimator (H : Ham m g K) (C W : Matrix (Fin m) (Fin
     rhfEnergyR H C W = specEnergy H (ovlp C) (ovlp C) W W := by
   rw [rhf_restricted_eq_unrestricted H C W h2, uhf_energy_is_mixed_estimator H C C W W h h]
 
+/-! ## NOCI: a linear combination of product bras
+
+`noci._calc_energy` returns `Σ_d c_d ov_d E_d / Σ_d c_d ov_d` with `E_d` the single-determinant Green's-function
+energy.  `⟨ψ|H|φ⟩` is linear in the bra, so the mixed estimator of `⟨ψ_T| = Σ_d c_d ⟨ψ_d|` is
+`Σ_d c_d N_d / Σ_d c_d ov_d` with `N_d = ov_d · specEnergy_d` the column-replacement numerator of determinant `d`. -/
+
+/-- the numerator `⟨ψ|H|Φ⟩` of a product bra, written with explicit column replacements -/
+noncomputable def specNumer (H : Ham m g K)
+    (Fa : Matrix (Fin m) (Fin ka) K → K) (Fb : Matrix (Fin m) (Fin kb) K → K)
+    (Wa : Matrix (Fin m) (Fin ka) K) (Wb : Matrix (Fin m) (Fin kb) K) : K :=
+  (Fa Wa * Fb Wb) * specEnergy H Fa Fb Wa Wb
+
+theorem noci_energy_is_mixed_estimator {nd : ℕ} (H : Ham m g K) (c : Fin nd → K)
+    (Ca : Fin nd → Matrix (Fin m) (Fin ka) K) (Cb : Fin nd → Matrix (Fin m) (Fin kb) K)
+    (Wa : Matrix (Fin m) (Fin ka) K) (Wb : Matrix (Fin m) (Fin kb) K)
+    (h : ∀ d, ovlp (Ca d) Wa ≠ 0 ∧ ovlp (Cb d) Wb ≠ 0) :
+    (∑ d, c d * uhfOverlap (Ca d) (Cb d) Wa Wb * uhfEnergy H (Ca d) (Cb d) Wa Wb)
+        / (∑ d, c d * uhfOverlap (Ca d) (Cb d) Wa Wb)
+      = (∑ d, c d * specNumer H (ovlp (Ca d)) (ovlp (Cb d)) Wa Wb)
+        / (∑ d, c d * (ovlp (Ca d) Wa * ovlp (Cb d) Wb)) := by
+  congr 1
+  refine Finset.sum_congr rfl fun d _ => ?_
+  rw [uhf_energy_is_mixed_estimator H (Ca d) (Cb d) Wa Wb (h d).1 (h d).2]
+  unfold specNumer uhfOverlap
+  ring
+
 end AfqmcVerif.Props.C02
